@@ -237,6 +237,23 @@ def warm(a, da=None):
                 getattr(a, name)(**kw)
         except Exception:
             pass
+    # non-in-place operations whose results are thrown away: transposing, reindexing, sorting, taking, interpolating, arithmetic
+    # (whatever they remember on the array or on its axes - sorters, sorted copies, transposes - must not matter later)
+    calls = [lambda: a.T, lambda: a + a, lambda: a.copy()]
+    for i, ax in enumerate(a.axes):
+        if ax.size:
+            calls.append(lambda i=i, ax=ax: a.reindex_axis(ax.values[::-1].copy(), axis=i))
+            calls.append(lambda i=i: a.sort_axis(axis=i))
+            calls.append(lambda i=i: a.take_axis([0], axis=i, indexing="position"))
+            if ax.values.dtype.kind in "if":
+                calls.append(lambda i=i, ax=ax: a.interp_axis([float(ax.values[0])], axis=i))
+    for f in calls:
+        try:
+            with np.errstate(all="ignore"), warnings.catch_warnings():
+                warnings.simplefilter("ignore")
+                f()
+        except Exception:
+            pass
     return a
 
 
